@@ -38,4 +38,10 @@ def run(S):
     if cov['decided'] < cov['docs']:
         S.inconclusive.append('deep prose documents: %r' % (cov['gaps'][:3],))
     S.assumptions += markup.ASSUMPTIONS
+    # whole documents through the real printer, the interpreted renderer at narrow and wide widths and the real parser: a line that holds prose stays
+    # one line and none of its elements gains a line break inside
+    from . import reparse as _rp
+    _docs = _rp.PROSE_LINE_DOCS + deep.PROSE + _rp.EVAL_DOCS
+    _fr, _covr = _rp.explore(S, _docs, tabs=(2,) if S.tier == 'quick' else (2, 4), widths=(0, 15, 40, 1 << 30) if S.tier == 'quick' else (0, 10, 15, 20, 30, 40, 80, 1 << 30), prop='C08')
+    _rp.report(S, 'C08', _fr)
     return S.finish(level='other', explanation=EXPLANATION, trusted=['mirsym encoder', 'typst-syntax kind tables', 'pretty Doc algebra contracts'])
